@@ -722,6 +722,8 @@ func runADyn(r *verifsim.Run) {
 	prevAff := false
 	reseed := true // start-up
 	nChanges := 0
+	nBg := 0                  // non-FFC frames the detector has seen since start-up / the last camera reset
+	var prevInterior []uint16 // interior of the background after the previous non-FFC frame
 	var tr *zz.Trace
 	after := func(i int, w *aWorld) {
 		if r.Failed() {
@@ -731,6 +733,7 @@ func runADyn(r *verifsim.Run) {
 		d := w.mp.motionDetector
 		if e.Kind == 'C' {
 			reseed = true
+			nBg, prevInterior = 0, nil
 			// a camera reset may put the configured threshold back in force; that is not a recomputation
 			if d.tempThresh != prevThresh && d.tempThresh != m.TempThresh {
 				r.Violate("C15", "C15.threshold", "changed-by-reset", "the camera reset at event %d changed the threshold from %d to %d (configured %d)", i, prevThresh, d.tempThresh, m.TempThresh)
@@ -746,6 +749,19 @@ func runADyn(r *verifsim.Run) {
 		if !e.FFC {
 			frame := w.sent[e.ID]
 			sum, np := 0.0, 0
+			nBg++
+			interior := make([]uint16, 0, len(prevInterior))
+			for y := c.Edge; y < c.H-c.Edge; y++ {
+				interior = append(interior, bg[y][c.Edge:c.W-c.Edge]...)
+			}
+			contentChanged := false
+			for k := range prevInterior {
+				if prevInterior[k] != interior[k] {
+					contentChanged = true
+					break
+				}
+			}
+			prevInterior = interior
 			for y := c.Edge; y < c.H-c.Edge; y++ {
 				for x := c.Edge; x < c.W-c.Edge; x++ {
 					if bg[y][x] > frame[y][x] {
@@ -814,6 +830,28 @@ func runADyn(r *verifsim.Run) {
 						first = "seed-frame"
 					}
 					r.Violate("C15", "C15.threshold", lim+":"+both+":"+first, "after frame id %d the threshold was recomputed to %d; mean of the interior background is %.2f, limited to [min %d, max %d] gives %.0f", e.ID, d.tempThresh, mean, m.TempThreshMin, m.TempThreshMax, want)
+					return
+				}
+			}
+			if d.tempThresh == prevThresh && contentChanged && nBg > d.previewFrames && np > 0 {
+				// "tracks": the background is established (more frames than the preview since the last
+				// reset) and its content moved on this frame, yet the threshold stayed where it was: then
+				// where it was has to be where the mean is (a skipped recomputation is fine only when it
+				// would not have changed anything)
+				want := sum / float64(np)
+				if m.TempThreshMin != 0 && want < float64(m.TempThreshMin) {
+					want = float64(m.TempThreshMin)
+				}
+				if m.TempThreshMax != 0 && want > float64(m.TempThreshMax) {
+					want = float64(m.TempThreshMax)
+				}
+				r.Probe("threshold-kept-while-background-moved")
+				if diff := float64(d.tempThresh) - want; diff > 1 || diff < -1 {
+					sig := "stale"
+					if d.tempThresh == m.TempThresh {
+						sig = "stale:configured-value"
+					}
+					r.Violate("C15", "C15.tracks", sig, "after frame id %d (%d frames since start-up/reset, preview %d) the background changed but the threshold stayed at %d; the mean of the interior background limited to [min %d, max %d] is %.0f", e.ID, nBg, d.previewFrames, d.tempThresh, m.TempThreshMin, m.TempThreshMax, want)
 					return
 				}
 			}
